@@ -169,6 +169,28 @@ func CmdConcRace(args []string, seed int64) int {
 				}
 			}
 		})
+		// a phase of lookups only (hits refresh recency, which is a write to the shared list): readers next to readers
+		c2, _ := wlru.New(100, 8)
+		for k := 1; k <= 6; k++ {
+			c2.Add(k, k, 1)
+		}
+		hammer(2+r0.Intn(7), iters, seed+12, func(g int, r *rand.Rand) {
+			k := 1 + r.Intn(7)
+			switch r.Intn(8) {
+			case 0, 1, 2:
+				c2.Get(k)
+			case 3:
+				c2.Peek(k)
+			case 4:
+				c2.Contains(k)
+			case 5:
+				c2.Keys()
+			case 6:
+				c2.GetOldest()
+			case 7:
+				c2.Total()
+			}
+		})
 		fmt.Fprintln(os.Stderr, "race workload lru done")
 	}
 	if run("sem") {
